@@ -18,6 +18,8 @@ def handle (line : String) : String :=
     | some "wdiff" => toString (WorldDriver.runWDiff s.args)
     | some "mut" => -- C12: the model of the conversion sites has no panic outcome (Properties/C12)
         toString (Sexp.list [.atom "mut", (s.args.head?).getD (.atom "?"), .atom "nopanic"])
+    | some "wfmt" => -- C18/C08/C09 oracle family: judged by relations between runs of the real code
+        toString (Sexp.list [.atom "wfmt", (s.args.head?).getD (.atom "?"), .atom "done"])
     | some "baddoc" => toString (Pipeline.run s.args)
     | some "wspec" => toString (Spec.SpecDriver.run s.args)
     | _ => "bad-op"
